@@ -138,7 +138,14 @@ class Reader(Stoppable):
             await asyncio.sleep(0.0001)
 
     async def _process_1(self):
-        msg, stop, skip = self.deserialize()
+        try:
+            msg, stop, skip = self.deserialize()
+        except Exception as exc:  # pylint: disable=broad-except
+            # A frame that cannot be parsed leaves the stream unusable: end the session
+            # instead of letting the reader task die and the session go deaf.
+            self.log.error('%s> unable to parse incoming data, closing: %r', self.session_id, exc)
+            await self.stop()
+            return
 
         if stop:
             self.log.debug('%s> stopping reader', self.session_id)
